@@ -970,7 +970,8 @@ LEVEL_TEXT = ("Machine-checked Coq theorems on a faithful Gallina model of label
               "kkt_ok is proved sound and evaluated on every generated run - optimality is not an invariant of the algorithm, the previous "
               "solve loop is refuted by C05_refuted_old_early_exit) and termination (no bound known with splits; every theorem assumes "
               "solve returned). The model is tied to the code by differential execution on every run (doubles within 1e-9, exact "
-              "Fractions with equality).")
+              "Fractions with equality)."
+              " Also proved: strong convexity (C05_strong_convexity, C05_optimum_unique: the optimum is unique and a run certified by kkt_ok is within an explicit distance of it, kkt_ok_close_to_any_optimum), on chain instances that optimum is the PAVA result of the layer model (C05_chain_matches_pava), traversal fuel is always enough (C05_traversal_fuel_enough) and satisfy terminates when no split-between occurs. The tie is state-level: the proved invariants I1, I2, I4 are checked on the implementation's final solver state for every case, kkt_ok gates.")
 LEVEL_NOTE = ("Trusted: Coq kernel; extraction re-checked on a slice (small instances) by vm_compute; the correspondence harness and "
               "generators. Modelled, not verified: labella/vpsc.py; IEEE doubles are modelled by exact rationals (gap measured by the "
               "tie; float/exact branch divergence at exact ties is classified as ambiguous only when the implementation's own output "
